@@ -62,6 +62,7 @@ def metric_grid():
       'top2': (M.TopKAccuracy(2, 'y', 'pred'), 'int'),
       'top3': (M.TopKAccuracy(3, 'y', 'pred'), 'int'),
       'top9': (M.TopKAccuracy(9, 'y', 'pred'), 'int'),
+      'top0': (M.TopKAccuracy(0, 'y', 'pred'), 'int'),
       'stce_a': (M.SequenceTokenCrossEntropyLoss('ys', 'preds', (0,), False), 'ce'),
       'stce_b': (M.SequenceTokenCrossEntropyLoss('ys', 'preds', (0, 2), True), 'ce'),
       'stce_c': (M.SequenceTokenCrossEntropyLoss('ys', 'preds', (), False), 'ce'),
@@ -83,6 +84,8 @@ def metric_grid():
       'oov_a': (M.SequenceTokenOOVRate((2,), 'ys', (0,), False), 'int'),
       'oov_b': (M.SequenceTokenOOVRate((3,), 'ys', (0,), True), 'int'),
       'oov_c': (M.SequenceTokenOOVRate((1, 2), 'ys', (0,), False), 'int'),
+      'oov_e': (M.SequenceTokenOOVRate((), 'ys', (0,), False), 'int'),
+      'str_0': (M.SequenceTruncationRate(0, 'ys', ()), 'int'),
       'len_a': (M.SequenceLength('ys', (0,)), 'int'),
       'len_b': (M.SequenceLength('ys', (0, 3)), 'int'),
       'cm': (M.ConfusionMatrix(C, 'y', 'pred'), 'int'),
@@ -103,12 +106,29 @@ def plain_grid():
           'p_cm': (M.ConfusionMatrix(C), 'int'), 'p_pd_acc': (M.PerDomainMetric(M.Accuracy(), ND), 'int')}
 
 
-METRIC_NAMES = ['ce', 'acc', 'top1', 'top2', 'top3', 'top9', 'stce_a', 'stce_b', 'stce_c', 'sce_a', 'sce_b', 'sta_a', 'sta_b',
+METRIC_NAMES = ['ce', 'acc', 'top1', 'top2', 'top3', 'top9', 'top0', 'stce_a', 'stce_b', 'stce_c', 'sce_a', 'sce_b', 'sta_a', 'sta_b',
                 'sta_c', 'sttk_a', 'sttk_b', 'sttk_c', 'stc_a', 'stc_b', 'stc_c', 'sc_a', 'sc_b', 'str_a', 'str_b', 'oov_a',
-                'oov_b', 'oov_c', 'len_a', 'len_b', 'cm', 'pd_acc', 'pd_ce', 'pd_sta_pp', 'pd_stce_pp', 'pd_stc', 'pd_cm']
+                'oov_b', 'oov_c', 'oov_e', 'str_0', 'len_a', 'len_b', 'cm', 'pd_acc', 'pd_ce', 'pd_sta_pp', 'pd_stce_pp', 'pd_stc', 'pd_cm']
 PLAIN_NAMES = ['p_acc', 'p_ce', 'p_top2', 'p_cm', 'p_pd_acc']
+LOWP_NAMES = ['acc', 'top1', 'top2', 'top0', 'sta_a', 'sta_b', 'sta_c', 'sttk_a', 'sttk_b', 'stc_a', 'sc_a', 'str_a', 'oov_a',
+              'oov_b', 'len_a', 'cm', 'pd_acc', 'pd_sta_pp', 'pd_stc', 'pd_cm']
+# a second Model built from the SAME apply function and the SAME eval_metrics keys as 'plain' but other hyper-parameters
+PLAIN2_NAMES = ['q_acc', 'q_ce', 'q_top2', 'q_cm', 'q_pd_acc']
+NAMES = {'dict': None, 'plain': PLAIN_NAMES, 'plain2': PLAIN2_NAMES}
+
+
+def _mkey(which, name):
+  """Key of the metric in the Model's eval_metrics."""
+  return 'p_' + name[2:] if which == 'plain2' else name
 
 _STATE = {}
+CFG_KEYS = ('pool_seed', 'api', 'batches', 'model', 'form', 'cform', 'idtype', 'maskdt', 'arr', 'kw', 'ctx', 'pool', 'again')
+
+
+def plain2_grid():
+  from fedjax.core import metrics as M
+  return {'q_acc': (M.Accuracy(), 'int'), 'q_ce': (M.CrossEntropyLoss(), 'ce'), 'q_top2': (M.TopKAccuracy(1), 'int'),
+          'q_cm': (M.ConfusionMatrix(C), 'int'), 'q_pd_acc': (M.PerDomainMetric(M.TopKAccuracy(2), ND), 'int')}
 
 
 def _setup():
@@ -117,8 +137,9 @@ def _setup():
     return _STATE
   import fedjax
   from fedjax.core import metrics as M
-  grid, plain = metric_grid(), plain_grid()
-  assert list(grid) == METRIC_NAMES and list(plain) == PLAIN_NAMES
+  grid, plain, plain2 = metric_grid(), plain_grid(), plain2_grid()
+  assert list(grid) == METRIC_NAMES and list(plain) == PLAIN_NAMES and list(plain2) == PLAIN2_NAMES
+  NAMES['dict'] = METRIC_NAMES
 
   def classes(m):
     out = {type(m).__name__}
@@ -139,14 +160,17 @@ def _setup():
   def apply_plain(params, batch):
     del params
     return batch['pred']
-  _STATE['grid'] = {'dict': grid, 'plain': plain}
-  _STATE['apply'] = {'dict': apply_dict, 'plain': apply_plain}
+  _STATE['grid'] = {'dict': grid, 'plain': plain, 'plain2': plain2}
+  _STATE['apply'] = {'dict': apply_dict, 'plain': apply_plain, 'plain2': apply_plain}
   _STATE['model'] = {
       'dict': fedjax.Model(init=None, apply_for_train=None, apply_for_eval=apply_dict, train_loss=None,
                            eval_metrics={k: m for k, (m, _) in grid.items()}),
       'plain': fedjax.Model(init=None, apply_for_train=None, apply_for_eval=apply_plain, train_loss=None,
                             eval_metrics={k: m for k, (m, _) in plain.items()}),
+      'plain2': fedjax.Model(init=None, apply_for_train=None, apply_for_eval=apply_plain, train_loss=None,
+                             eval_metrics={_mkey('plain2', k): m for k, (m, _) in plain2.items()}),
   }
+  _STATE['kept'] = None
   _STATE['evaluator'] = {}
   _STATE['pools'] = {}
   _STATE['memo'] = {}
@@ -156,7 +180,14 @@ def _setup():
 # ---------------------------------------------------------------------------
 # pool of examples
 
-def make_pool(seed):
+def make_pool(seed, variant='std'):
+  """variant 'lowp': the same examples with uint8 / int8 targets, float16 / bfloat16 predictions, int64 domain ids."""
+  if variant == 'lowp':
+    import jax.numpy as jnp
+    p = make_pool(seed)
+    return {'y': p['y'].astype(np.uint8), 'pred': p['pred'].astype(np.float16), 'ys': p['ys'].astype(np.int8),
+            'preds': np.asarray(jnp.asarray(p['preds'], dtype=jnp.bfloat16)), 'domain_id': p['domain_id'].astype(np.int64),
+            'dom': p['dom'].astype(np.int64), 'idx': p['idx']}
   rng = random.Random(seed * 7919 + 13)
   n = N_REAL + N_GARB + 1
   y = np.zeros(n, np.int32)
@@ -181,18 +212,18 @@ def make_pool(seed):
           'idx': np.arange(1, n + 1, dtype=np.int32) * (np.arange(n) != ZERO)}
 
 
-def pool_stats(seed):
+def pool_stats(seed, variant='std'):
   """Per-example statistics of every pool row for every metric, from the implementation's
   own evaluate_example (vmapped): name -> (stat kind, entry shape, rows) with rows[i] the
   flattened entries of row i: [(accum, weight)...] for MeanStat, [accum...] for SumStat."""
   import jax
   from fedjax.core import metrics as M
   st = _setup()
-  if seed in st['pools']:
-    return st['pools'][seed]
-  pool = make_pool(seed)
+  if (seed, variant) in st['pools']:
+    return st['pools'][(seed, variant)]
+  pool = make_pool(seed, variant)
   out = {'pool': pool}
-  for which in ('dict', 'plain'):
+  for which in ('dict', 'plain', 'plain2'):
     pred = st['apply'][which](None, pool)
     for name, (metric, _) in st['grid'][which].items():
       s = jax.vmap(metric.evaluate_example)(pool, pred)
@@ -206,7 +237,9 @@ def pool_stats(seed):
         out[name] = ('sum', tuple(np.shape(s.accum)[1:]), [a[i].tolist() for i in range(n)])
       else:
         raise TypeError(type(s))
-  st['pools'] = {seed: out}
+  if len(st['pools']) > 3:
+    st['pools'].clear()
+  st['pools'][(seed, variant)] = out
   return out
 
 
@@ -248,7 +281,7 @@ def gen_batches(rng, n_real, sizes=(4, 2, 1), masked=True, fully_masked=0.12):
 
 
 def configs(tier, rng):
-  n = {'quick': 34, 'thorough': 800, 'search': 700}.get(tier, 34)
+  n = {'quick': 24, 'thorough': 800, 'search': 700}.get(tier, 24)
   seeds = [rng.randrange(1, 10 ** 6) for _ in range(2 if tier == 'quick' else 10)]
   out = []
   fixed = [
@@ -281,7 +314,25 @@ def configs(tier, rng):
     else:
       masked = rng.random() < 0.8
       b = gen_batches(rng, rng.randrange(0, 13), masked=masked)
-    out.append({'pool_seed': seed, 'api': api, 'batches': b, 'model': model})
+    cfg = {'pool_seed': seed, 'api': api, 'batches': b, 'model': model,
+           'form': rng.choice(['list', 'tuple', 'iter', 'gen', 'map', 'partial'] + (['view', 'view'] if not isinstance(b, list) else [])),
+           'cform': rng.choice(['list', 'tuple', 'gen']), 'idtype': rng.choice(['bytes', 'str', 'int']),
+           'maskdt': rng.choice(['bool'] * 9 + ['int32', 'float32', 'uint8']), 'arr': rng.choice(['np', 'np', 'jax']),
+           'kw': rng.random() < 0.25}
+    if i % 6 == 2:
+      cfg['model'] = 'plain2'
+    if cfg['model'] != 'dict' and i % 2 == 0:
+      cfg['ctx'] = 'nojit'                         # jax.disable_jit() around the whole call (small models only: eager is slow)
+    out.append(cfg)
+  # narrow dtypes for the features: integer-valued metrics only (cross-entropy in float16 is not comparable at 1e-5)
+  for i in range({'quick': 2, 'thorough': 30, 'search': 40}.get(tier, 2)):
+    out.append({'pool_seed': seeds[0], 'api': ['evaluate_model', 'evaluator_global', 'evaluate_batch'][i % 3],
+                'batches': gen_batches(rng, rng.randrange(1, 9), sizes=(4, 2))[:(1 if i % 3 == 2 else None)],
+                'model': 'dict', 'pool': 'lowp', 'form': 'list', 'maskdt': 'bool', 'arr': ['np', 'jax'][i % 2]})
+  # object reuse: the first configurations again at the very end (other metric configurations, other Models and
+  # evaluators have been used in between), bypassing the harness cache
+  for c in out[6:9] + [c for c in out if c['model'] == 'plain'][:1]:
+    out.append({**c, 'again': 1})
   return out
 
 
@@ -307,6 +358,11 @@ def stat_cases(tier, rng):
       yield {'kind': 'stat', 'op': 'reduce', 'args': [[rng.choice(fin_a) for _ in range(k)], [rng.choice(fin_w) for _ in range(k)]]}
     else:
       yield {'kind': 'stat', 'op': 'reduce', 'args': [[rng.choice(acc) for _ in range(k)], [rng.choice(wts) for _ in range(k)]]}
+  for i in range(n // 3):
+    bsz = rng.choice([0, 1, 3])
+    rank = rng.choice(['a1-b0', 'a2-b1', 'a2-b0', 'a3-b1'])
+    yield {'kind': 'stat', 'op': 'apply_mask', 'args': [[rng.random() < 0.5 for _ in range(bsz)], rank,
+                                                         [rng.choice(acc) for _ in range(bsz * 6)], [rng.choice(acc[:7]) for _ in range(6)]]}
   for _ in range(n // 2):
     yield {'kind': 'stat', 'op': 'sum_merge', 'args': [rng.choice(acc), rng.choice(acc)]}
     yield {'kind': 'stat', 'op': 'sum_reduce', 'args': [[rng.choice(acc[:7]) for _ in range(rng.randrange(0, 6))]]}
@@ -334,11 +390,14 @@ def evaluator_configs(tier, rng):
     backend = 'debug' if i % 2 == 0 else 'jit'
     calls = []
     for c in range(2 if tier == 'quick' else rng.choice([2, 3])):
-      clients = [gen_batches(rng, rng.randrange(1, 6), sizes=(2, 1), fully_masked=0.0) for _ in range(rng.choice([1, 2]))]
+      small = backend == 'debug' and i % 4 == 0      # jit disabled + all metric configurations: keep it small
+      clients = [gen_batches(rng, rng.randrange(1, 3 if small else 6), sizes=(2, 1), fully_masked=0.0)
+                 for _ in range(1 if small else rng.choice([1, 2]))]
       empty = rng.choice([[], [], [{'rows': [_garbage(rng), _garbage(rng)], 'mask': [False, False]}]])
       clients.insert(rng.randrange(0, len(clients) + 1) if c else len(clients), empty)
       calls.append({'mode': rng.choice(['global', 'per_client']), 'clients': clients})
-    yield {'pool_seed': seed, 'backend': backend, 'calls': calls, 'model': 'plain' if i % 4 == 2 else 'dict'}
+    yield {'pool_seed': seed, 'backend': backend, 'calls': calls, 'model': 'plain' if i % 4 == 2 else 'dict',
+           'interleave': i % 4 in (1, 2), 'idtype': ['bytes', 'str', 'int'][i % 3]}
 
 
 def generate(tier, rng):
@@ -348,10 +407,12 @@ def generate(tier, rng):
     for j, name in enumerate(names):
       yield {'kind': 'evaluator', **cfg, 'metric': name, 'observe': list(slots[(j * 7 + 3) % len(slots)])}
   for cfg in algebra_configs(tier, rng):
-    for name in (METRIC_NAMES if cfg['model'] == 'dict' else PLAIN_NAMES):
-      yield {'kind': 'algebra', **cfg, 'metric': name}
+    for j, name in enumerate(METRIC_NAMES if cfg['model'] == 'dict' else PLAIN_NAMES):
+      yield {'kind': 'algebra', **cfg, 'metric': name, 'jit_example': tier != 'quick' or j % 3 == (len(cfg['rows']) % 3)}
   for cfg in configs(tier, rng):
-    names = METRIC_NAMES if cfg['model'] == 'dict' else PLAIN_NAMES
+    names = NAMES[cfg['model']] or METRIC_NAMES
+    if cfg.get('pool') == 'lowp':
+      names = LOWP_NAMES
     for name in names:
       yield {'kind': 'eval', **cfg, 'metric': name}
   yield from stat_cases(tier, rng)
@@ -382,13 +443,61 @@ def _resolve_batches(cfg, pool):
   return out
 
 
-def _mk_batch(pool, b):
+def _view(cfg, pool):
   import fedjax
+  b = cfg['batches']
+  spec = b.get('padded_batch') or b['batch']
+  ds = fedjax.ClientDataset({k: v[np.array(spec['order'], dtype=np.int64)] for k, v in pool.items()})
+  if 'padded_batch' in b:
+    return ds.padded_batch(batch_size=spec['batch_size'], num_batch_size_buckets=spec['buckets'])
+  return ds.batch(batch_size=spec['batch_size'])
+
+
+def _mk_batch(pool, b, maskdt='bool', arr='np'):
+  import fedjax
+  import jax.numpy as jnp
   rows = np.array(b['rows'], dtype=np.int64)
   out = {k: v[rows] for k, v in pool.items()}
   if b['mask'] is not None:
-    out[fedjax.EXAMPLE_MASK_KEY] = np.array(b['mask'], dtype=np.bool_)
+    out[fedjax.EXAMPLE_MASK_KEY] = np.array(b['mask'], dtype=np.bool_).astype(np.dtype(maskdt))
+  if arr == 'jax':
+    out = {k: jnp.asarray(v) for k, v in out.items()}
   return out
+
+
+def _deliver(feed, form):
+  """Delivery form of an iterable of batches / clients."""
+  if form == 'tuple':
+    return tuple(feed)
+  if form == 'iter':
+    return iter(feed)
+  if form == 'gen':
+    return (b for b in feed)
+  if form == 'map':
+    return map(lambda b: b, feed)
+  if form == 'partial':
+    it = iter([{'already': 'consumed'}] + list(feed))
+    next(it)
+    return it
+  return list(feed)
+
+
+def _snapshot(feed, params):
+  return ([(sorted(b), {k: (np.asarray(v).dtype, np.asarray(v).tobytes()) for k, v in b.items()}) for b in feed],
+          {k: np.asarray(v).tobytes() for k, v in params.items()})
+
+
+def _kept_check_and_store(st, res):
+  """Results returned by the PREVIOUS call must still be alive and unchanged; then keep this call's results."""
+  import jax
+  bad = False
+  if st.get('kept') is not None:
+    for a, snap in st['kept']:
+      if (isinstance(a, jax.Array) and a.is_deleted()) or np.asarray(a).tobytes() != snap:
+        bad = True
+  leaves = jax.tree_util.tree_leaves(res)
+  st['kept'] = [(a, np.asarray(a).tobytes()) for a in leaves]
+  return bad
 
 
 def _flat_result(x, shape):
@@ -427,60 +536,78 @@ def _merge_fn(which):
 
 
 def _run_config(cfg):
+  import contextlib
   import jax
   import fedjax
   from fedjax.core import metrics as M, models
   st = _setup()
-  key = json.dumps([cfg['pool_seed'], cfg['api'], cfg['batches'], cfg['model']], sort_keys=True)
+  key = json.dumps(cfg, sort_keys=True)
   if key in st['memo']:
     return st['memo'][key]
-  ps = pool_stats(cfg['pool_seed'])
+  variant = cfg.get('pool', 'std')
+  ps = pool_stats(cfg['pool_seed'], variant)
   pool = ps['pool']
   which = cfg['model']
   model, grid = st['model'][which], st['grid'][which]
   batches = _resolve_batches(cfg, pool)
   real = [r for b in batches for r, m in zip(b['rows'], b['mask'] or [True] * len(b['rows'])) if m]
   api = cfg['api']
+  form, kw = cfg.get('form', 'list'), bool(cfg.get('kw'))
   res, stats, extra_ok = {}, {}, True
-  feed = [_mk_batch(pool, b) for b in batches]
-  if api == 'evaluate_model':
-    how = len(batches) % 3
-    arg = feed if how == 0 else iter(feed) if how == 1 else (b for b in feed)
-    r = fedjax.evaluate_model(model, {'p': np.zeros(2, np.float32)}, arg)
-    res = {k: r[k] for k in grid}
-    extra_ok = set(r) == set(grid)
-  elif api in ('evaluator_global', 'evaluator_per_client'):
-    if which not in st['evaluator']:
-      st['evaluator'][which] = models.ModelEvaluator(model)
-    ev = st['evaluator'][which]
-    params = {'p': np.zeros(2, np.float32)}
-    if api == 'evaluator_global':
-      got = dict(ev.evaluate_global_params(params, [(b'other', feed[:1]), (b'me', feed), (b'none', [])]))
+  feed = [_mk_batch(pool, b, cfg.get('maskdt', 'bool'), cfg.get('arr', 'np')) for b in batches]
+  params = {'p': np.zeros(2, np.float32)}
+  before = _snapshot(feed, params)
+  cm = jax.disable_jit() if cfg.get('ctx') == 'nojit' else contextlib.nullcontext()
+  with cm:
+    if api == 'evaluate_model':
+      if form == 'view' and not isinstance(cfg['batches'], list):
+        arg = _view(cfg, pool)                        # the library's own view object, not materialised
+      else:
+        arg = _deliver(feed, form)
+      r = fedjax.evaluate_model(model=model, params=params, batches=arg) if kw else fedjax.evaluate_model(model, params, arg)
+      res = {k: r[_mkey(which, k)] for k in grid}
+      extra_ok = set(r) == {_mkey(which, k) for k in grid}
+    elif api in ('evaluator_global', 'evaluator_per_client'):
+      if which not in st['evaluator']:
+        st['evaluator'][which] = models.ModelEvaluator(model)
+      ev = st['evaluator'][which]
+      me, other, none = {'bytes': (b'me', b'', b'none'), 'str': ('me', '', 'none'), 'int': (7, 0, 3)}[cfg.get('idtype', 'bytes')]
+      if api == 'evaluator_global':
+        clients = _deliver([(other, _deliver(feed[:1], form)), (me, _deliver(feed, form)), (none, [])], cfg.get('cform', 'list'))
+        got = dict(ev.evaluate_global_params(params=params, clients=clients) if kw else ev.evaluate_global_params(params, clients))
+      else:
+        clients = _deliver([(me, _deliver(feed, form), params), (none, iter([]), {'p': np.ones(2, np.float32)})], cfg.get('cform', 'list'))
+        got = dict(ev.evaluate_per_client_params(clients=clients) if kw else ev.evaluate_per_client_params(clients))
+      res = {k: got[me][_mkey(which, k)] for k in grid}
+      # a client without batches yields the zero statistic's result
+      extra_ok = set(got) >= {me, none} and all(bool(np.all(np.asarray(v) == 0)) for v in got[none].values())
+    elif api in ('evaluate_batch', 'evaluate_batch_nomask'):
+      b = feed[0]
+      pred = model.apply_for_eval(None, b)
+      mask = b.get(fedjax.EXAMPLE_MASK_KEY) if api == 'evaluate_batch' else None
+      ex = {k: v for k, v in b.items() if k != fedjax.EXAMPLE_MASK_KEY}
+      for name, (metric, _) in grid.items():
+        if kw:
+          s = M.evaluate_batch(metric, batch_example=ex, batch_prediction=pred, batch_mask=mask)
+        else:
+          s = M.evaluate_batch(metric, ex, pred, mask)
+        res[name] = s.result()
+        stats[name] = s
     else:
-      got = dict(ev.evaluate_per_client_params([(b'me', feed, params), (b'none', [], {'p': np.ones(2, np.float32)})]))
-    res = {k: got[b'me'][k] for k in grid}
-    # a client without batches yields the zero statistic's result
-    extra_ok = set(got) >= {b'me', b'none'} and all(
-        bool(np.all(np.asarray(v) == 0)) for v in got[b'none'].values())
-  elif api in ('evaluate_batch', 'evaluate_batch_nomask'):
-    b = feed[0]
-    pred = model.apply_for_eval(None, b)
-    mask = b.get(fedjax.EXAMPLE_MASK_KEY) if api == 'evaluate_batch' else None
-    ex = {k: v for k, v in b.items() if k != fedjax.EXAMPLE_MASK_KEY}
-    for name, (metric, _) in grid.items():
-      s = M.evaluate_batch(metric, ex, pred, mask)
-      res[name] = s.result()
-      stats[name] = s
-  else:
-    raise ValueError(api)
+      raise ValueError(api)
   res = jax.block_until_ready(res)
   # the property's reference: merge the single-example statistics one by one (implementation's merge)
   slots = (real + [ZERO] * 16)[:16]
   use = np.array([True] * min(len(real), 16) + [False] * (16 - min(len(real), 16)))
   ref = None
-  if len(real) <= 16:
+  if len(real) <= 16 and variant == 'std':
     ref = _merge_fn(which)({k: v[np.array(slots)] for k, v in pool.items()}, use)
-  out = {'batches': batches, 'n_real': len(real), 'extra_ok': bool(extra_ok), 'metrics': {}}
+  problems = []
+  if _snapshot(feed, params) != before:
+    problems.append('batch-modified')
+  if _kept_check_and_store(st, res):
+    problems.append('kept-result-changed')
+  out = {'batches': batches, 'n_real': len(real), 'extra_ok': bool(extra_ok), 'metrics': {}, 'problems': problems}
   for name in grid:
     kind, shape, _ = ps[name]
     flat, note = _flat_result(res[name], shape)
@@ -515,6 +642,17 @@ def _run_stat(case):
   f32 = lambda x: jnp.float32(_val(x))
   arr = lambda xs: jnp.array([_val(x) for x in xs], dtype=jnp.float32)
   stat = None
+  if op == 'apply_mask':
+    mask, rank, avals, bvals = args
+    n = len(mask)
+    ash = {'a1-b0': (n,), 'a2-b1': (n, 2), 'a2-b0': (n, 2), 'a3-b1': (n, 3, 2)}[rank]
+    bsh = {'a1-b0': (), 'a2-b1': (2,), 'a2-b0': (), 'a3-b1': (2,)}[rank]
+    a = np.array([_val(x) for x in avals], np.float32)[:int(np.prod(ash))].reshape(ash)
+    b = np.array([_val(x) for x in bvals], np.float32)[:int(np.prod(bsh, dtype=np.int64))].reshape(bsh)
+    got = np.asarray(M.apply_mask(jnp.array(mask, dtype=jnp.bool_), jnp.asarray(a), jnp.asarray(b)))
+    want = np.where(np.array(mask, dtype=bool).reshape((n,) + (1,) * (len(ash) - 1)), a, b)
+    same = got.shape == want.shape and got.tobytes() == np.asarray(want, np.float32).tobytes()
+    return {'result': [], 'stat': None, 'apply_mask_ok': bool(same)}
   if op == 'new':
     s = M.MeanStat.new(f32(args[0]), f32(args[1]))
     return {'result': [], 'stat': [_fin(float(s.accum)), _fin(float(s.weight))]}
@@ -598,7 +736,14 @@ def _run_algebra(case):
   forms = {'ab_c': a.merge(b).merge(c), 'a_bc': a.merge(b.merge(c)), 'ab': a.merge(b), 'ba': b.merge(a),
            'a': a, 'za': z.merge(a), 'az': a.merge(z), 'zz': z.merge(z), 'z': z,
            'left': left, 'left_nozero': left_nozero, 'right': right, 'right_zero': right_zero, 'tree': level[0]}
-  return {'stat_kind': kind, 'K': int(np.prod(shape, dtype=np.int64)), 'uncovered': st['uncovered'],
+  jitted = None
+  if case.get('jit_example'):
+    import jax
+    import jax.numpy as jnp
+    pool = ps['pool']
+    ex = {k: jnp.asarray(v[case['rows'][0]]) for k, v in pool.items()}
+    jitted = _stat_fields(jax.jit(metric.evaluate_example)(ex, st['apply'][which](None, ex)), shape)
+  return {'stat_kind': kind, 'K': int(np.prod(shape, dtype=np.int64)), 'uncovered': st['uncovered'], 'jitted': jitted,
           'forms': {k: _stat_fields(v, shape) for k, v in forms.items()},
           'singles': [_stat_fields(x, shape) for x in ss],
           'vmapped': [rows[i] for i in case['rows']],
@@ -611,7 +756,7 @@ def _run_evaluator_config(cfg):
   import fedjax
   from fedjax.core import models
   st = _setup()
-  key = json.dumps(['evaluator', cfg['pool_seed'], cfg['backend'], cfg['calls'], cfg['model']], sort_keys=True)
+  key = json.dumps(['evaluator', cfg], sort_keys=True)
   if key in st['memo']:
     return st['memo'][key]
   ps = pool_stats(cfg['pool_seed'])
@@ -619,27 +764,51 @@ def _run_evaluator_config(cfg):
   which = cfg['model']
   model, grid = st['model'][which], st['grid'][which]
   out = []
+  def mkid(ci, i):
+    t = cfg.get('idtype', 'bytes')
+    return (ci * 10 + i) if t == 'int' else ('' if (ci, i) == (0, 0) else 'call%d-client%d' % (ci, i)) if t == 'str' else \
+        (b'' if (ci, i) == (0, 0) else b'call%d-client%d' % (ci, i))
   with fedjax.for_each_client_backend(cfg['backend']):
     ev = models.ModelEvaluator(model)          # one evaluator object for all the calls
+    gens, idss = [], []
     for ci, call in enumerate(cfg['calls']):
       feeds = [[_mk_batch(pool, b) for b in client] for client in call['clients']]
-      ids = [b'call%d-client%d' % (ci, i) for i in range(len(feeds))]
+      ids = [mkid(ci, i) for i in range(len(feeds))]
       if call['mode'] == 'global':
-        got = dict(ev.evaluate_global_params({'p': np.zeros(2, np.float32)}, list(zip(ids, feeds))))
+        g = ev.evaluate_global_params({'p': np.zeros(2, np.float32)}, list(zip(ids, feeds)))
       else:
-        got = dict(ev.evaluate_per_client_params(
-            [(cid, f, {'p': np.full(2, i, np.float32)}) for i, (cid, f) in enumerate(zip(ids, feeds))]))
-      got = jax.block_until_ready(got)
+        g = ev.evaluate_per_client_params(
+            [(cid, f, {'p': np.full(2, i, np.float32)}) for i, (cid, f) in enumerate(zip(ids, feeds))])
+      gens.append(g)
+      idss.append(ids)
+    gots = [dict() for _ in gens]
+    if cfg.get('interleave'):
+      # an abandoned result generator, then the live generators of all calls consumed alternately
+      ab = ev.evaluate_global_params({'p': np.zeros(2, np.float32)}, [(b'abandoned-1', []), (b'abandoned-2', [])])
+      next(iter(ab), None)
+      live = [(i, iter(g)) for i, g in enumerate(gens)]
+      while live:
+        for item in list(live):
+          try:
+            cid, r = next(item[1])
+            gots[item[0]][cid] = r
+          except StopIteration:
+            live.remove(item)
+    else:
+      for i, g in enumerate(gens):
+        gots[i] = dict(g)
+    for ci, ids in enumerate(idss):
+      got = jax.block_until_ready(gots[ci])
       if set(got) != set(ids):
         raise AssertionError('ModelEvaluator did not yield exactly one result per client')
-      out.append([{name: _flat_result(got[cid][name], ps[name][1])[0] for name in grid} for cid in ids])
+      out.append([{name: _flat_result(got[cid][_mkey(which, name)], ps[name][1])[0] for name in grid} for cid in ids])
   st['memo'] = {key: out}
   return out
 
 
 def _run_evaluator(case):
   st = _setup()
-  cfg = {k: case[k] for k in ('pool_seed', 'backend', 'calls', 'model')}
+  cfg = {k: case[k] for k in ('pool_seed', 'backend', 'calls', 'model', 'interleave', 'idtype') if k in case}
   full = _run_evaluator_config(cfg)
   ps = pool_stats(case['pool_seed'])
   kind, shape, rows = ps[case['metric']]
@@ -661,13 +830,14 @@ def run(case):
   if case['kind'] == 'evaluator':
     return _run_evaluator(case)
   st = _setup()
-  cfg = {k: case[k] for k in ('pool_seed', 'api', 'batches', 'model')}
+  cfg = {k: case[k] for k in CFG_KEYS if k in case}
   full = _run_config(cfg)
   e = full['metrics'][case['metric']]
-  ps = pool_stats(case['pool_seed'])
+  ps = pool_stats(case['pool_seed'], case.get('pool', 'std'))
   kind, shape, rows = ps[case['metric']]
   enc = lambda xs: None if xs is None else [_fin(v) for v in xs]
   return {'batches': full['batches'], 'n_real': full['n_real'], 'extra_ok': full['extra_ok'], 'uncovered': st['uncovered'],
+          'problems': full['problems'],
           'stat_kind': kind, 'K': int(np.prod(shape, dtype=np.int64)), 'broadcast': e['broadcast'],
           'result': enc(e['result']), 'stat': enc(e['stat']), 'ref': enc(e['ref']),
           'rows': {str(i): rows[i] for b in full['batches'] for i in b['rows']}}
@@ -690,6 +860,9 @@ def oracle(case, obs):
     return _evaluator_oracle(case, obs)
   if obs['uncovered']:
     out.append(('uncovered-metric', 'built-in metric classes without a harness entry: ' + ', '.join(obs['uncovered'])))
+  for pr in obs.get('problems', []):
+    out.append((pr, {'batch-modified': 'the caller\'s batch dicts / arrays / params were changed by the call',
+                     'kept-result-changed': 'results returned by the previous call were deleted or changed by this call'}[pr]))
   if not obs['extra_ok']:
     out.append(('empty-client-nonzero', 'a client without batches did not yield the zero result, or results are missing'))
   res, ref = obs['result'], obs['ref']
@@ -796,6 +969,10 @@ def _algebra_oracle(case, obs):
         if any(g is None or abs(g - w) > tol * (1 + abs(w)) for g, w in zip(got, want)):
           out.append(('merge-not-sum-of-fields', f'{name}: {form} fold has {fld} {got}, the single-example {fld}s sum to {want}'))
           break
+  if obs.get('jitted') is not None:
+    d = differ(obs['jitted'], singles[0])
+    if d:
+      out.append(('jit-differs', f'{name}: jax.jit(evaluate_example) differs from the eager evaluate_example: {d}'))
   # evaluate_example under vmap (what evaluate_batch uses) gives the same statistic as the direct call
   for s_, v in zip(singles, obs['vmapped']):
     flat = [x for e in v for x in (e if isinstance(e, (list, tuple)) else [e])]
@@ -814,6 +991,8 @@ def _stat_oracle(case, obs):
   """MeanStat / SumStat laws on finite arguments, straight from the docstrings."""
   out = []
   op, args = case['op'], case['args']
+  if op == 'apply_mask':
+    return [] if obs['apply_mask_ok'] else [('apply-mask', f'apply_mask{args[:2]} is not a selection of rows on the leading dimension')]
   flat = [x for a in args for x in (a if isinstance(a, list) else [a])]
   if any(isinstance(x, str) for x in flat):
     return out
@@ -858,6 +1037,8 @@ def _nql(vs):
 
 
 def encode(case, obs):
+  if case['kind'] == 'stat' and case['op'] == 'apply_mask':
+    return None
   if case['kind'] == 'stat':
     a = case['args']
     f = lambda x: _nq(float(np.float32(_val(x))))
@@ -924,7 +1105,9 @@ def describe(case, obs):
   if case['kind'] == 'algebra':
     return {'kind': 'algebra', 'metric': case['metric'], 'field_dtypes': '/'.join(obs['singles'][0]['dtypes'])}
   bs = obs['batches']
-  return {'kind': 'eval', 'api': case['api'], 'metric': case['metric'],
+  return {'kind': 'eval', 'api': case['api'], 'metric': case['metric'], 'form': case.get('form', 'list'),
+          'maskdt': case.get('maskdt', 'bool'), 'arrays': case.get('arr', 'np'), 'kw': bool(case.get('kw')),
+          'ctx': case.get('ctx', 'jit'), 'pool': case.get('pool', 'std'), 'model': case['model'], 'again': bool(case.get('again')),
           'source': 'explicit' if isinstance(case['batches'], list) else list(case['batches'])[0],
           'batches': min(len(bs), 6), 'real_rows': 'none' if obs['n_real'] == 0 else '1-3' if obs['n_real'] < 4 else '4+',
           'masked_rows': 'none' if not any(not m for b in bs for m in (b['mask'] or [])) else 'some',
